@@ -62,6 +62,7 @@ def make_scenario(seed):
     dp["n_spectra"] = rng.randint(110, 160)
     per_file = int(dp["n_spectra"] * (1 + dp["max_per_spectrum"]) / 2)
     folds = rng.choice([2, 3, 3, 4])
+    dp["size_factors"] = [1.0] * dp["n_files"]
     while folds > 2 and per_file / folds < 45:
         folds -= 1
     learner = rng.choices(["olda", "rlda", "svc", "perc"], weights=[50, 15, 20, 15])[0]
